@@ -9,12 +9,17 @@ env.pop("BUMPVER_VERIF", None)
 subprocess.run(["/venv/bin/python", "-m", "pytest", "-q", "-p", "no:cacheprovider", "--timeout=900",
                 "--continue-on-collection-errors", "--junitxml=" + xml], cwd=wt, env=env,
                stdout=subprocess.DEVNULL, stderr=subprocess.DEVNULL, timeout=3000)
+import re
+def norm(name):
+    # some test ids embed the current month (v<YYYYMM>.1001-alpha-<YYYYMM>.1001a0): compare them independently of the day the suite runs
+    return re.sub(r"v\d{6}\.1001-alpha-\d{6}\.1001a0", "v<YYYYMM>.1001-alpha-<YYYYMM>.1001a0", name)
 b = json.load(open("/root/.vp/BASELINE.json"))
+b["stable_pass"] = sorted(set(norm(x) for x in b["stable_pass"]))
 passed = set()
 for tc in ET.parse(xml).iter("testcase"):
     name = (tc.get("classname") or "") + "::" + tc.get("name")
     if not any(c.tag in ("failure", "error", "skipped") for c in tc):
-        passed.add(name)
+        passed.add(norm(name))
 os.unlink(xml)
 missing = sorted(set(b["stable_pass"]) - passed)
 print("stable tests passing: %d/%d" % (len(b["stable_pass"]) - len(missing), len(b["stable_pass"])))
